@@ -5,8 +5,8 @@
 
 use crate::Uint;
 use parity_scale_codec::{
-    Compact, CompactAs, Decode, Encode, EncodeAsRef, EncodeLike, Error, HasCompact, Input,
-    MaxEncodedLen, Output,
+    Compact, CompactAs, CompactLen, Decode, Encode, EncodeAsRef, EncodeLike, Error, HasCompact,
+    Input, MaxEncodedLen, Output,
 };
 
 #[allow(unused_imports)]
@@ -30,7 +30,10 @@ impl<const BITS: usize, const LIMBS: usize> Encode for Uint<BITS, LIMBS> {
 
 impl<const BITS: usize, const LIMBS: usize> MaxEncodedLen for Uint<BITS, LIMBS> {
     fn max_encoded_len() -> usize {
-        core::mem::size_of::<Self>()
+        // Compact length prefix followed by the little-endian bytes.
+        #[allow(clippy::cast_possible_truncation)] // BYTES is small-ish
+        let prefix = Compact::<u32>::compact_len(&(Self::BYTES as u32));
+        prefix + Self::BYTES
     }
 }
 
@@ -118,7 +121,7 @@ impl<const BITS: usize, const LIMBS: usize> Encode for CompactRefUint<'_, BITS, 
             0..=6 => 1,
             7..=14 => 2,
             15..=30 => 4,
-            _ => (32 - self.0.leading_zeros() / 8) + 1,
+            _ => self.0.byte_len() + 1,
         }
     }
 
